@@ -17,6 +17,9 @@ CHECKS = {
  "C09": dict(engine="ctx", category="model_checking", technique="exhaustive enumeration of VM kind x engine x every ordered pair of non-overlapping offsets x probe program x sequences of three executions with different packets (same address/different length, different address) plus a set_program round trip; each execution compared with values computed from the caller's buffer addresses",
    text="States = (VM kind, offsets, engine, probe, packet triple); each execution is a transition whose observation (r1, the two pointers in the fixed buffer, end-start, ldabs of first/last byte, both ends of the 512-byte stack) must equal the value the harness computes from the addresses of the buffers it passed. Compiled code runs in forked children.",
    design_ref="DESIGN.md section 4 C09"),
+ "C10": dict(engine="api", category="model_checking", technique="explicit-state breadth-first search (stateright 0.31) to the fix-point of an abstract model of the VM API; every transition replays the state's history on a fresh real VM, applies the action and compares, then probes the reached state; self-loop edges get a depth-2 look-ahead",
+   text="The abstract state is (kind, program, verifier, helper, calculator, what each compiler holds, offsets). next_state() is executed against the implementation for every edge of the state graph (conformance per transition, not per counter-example); the post-state probe (execute on three packets, both compiled entry points, a set_program that must fail and change nothing) checks on every edge that the state reached behaves as the model says whatever path led there. Run twice; state and transition counts must agree.",
+   design_ref="DESIGN.md section 4 C10"),
  "C11": dict(engine="mem", category="model_checking", technique="same access x address x layout enumeration as C02 (no allowed ranges), each case compiled with Cranelift and executed in a forked child; observation = wait status + shared-memory arena",
    text="In-bounds: the child returns and the value/bytes are those of the access. Out of bounds: the child must die with SIGILL (the trap) and the arena, inspected by the parent through the shared mapping, must be byte-for-byte unchanged; SIGSEGV/SIGBUS or a changed canary means the access was attempted.",
    design_ref="DESIGN.md section 4 C11"),
@@ -53,6 +56,7 @@ CHECKS = {
 }
 
 ENGINES = {
+ "api": ("mc/src/apieng.rs", "kind B: explicit-state search of a protocol model (stateright BFS to fix-point) with per-transition replay on the real VM"),
  "ctx": ("mc/src/ctxeng.rs", "kind A: VM-kind x engine x configuration x execution-sequence explorer"),
  "mem": ("mc/src/memeng.rs", "kind A: access x address x layout explorer with guard-page arena and fork isolation"),
  "bytes": ("mc/src/byteseng.rs", "kind A: small-scope byte-string explorer with reference verifier predicate (mc/src/refverif.rs)"),
